@@ -5,6 +5,6 @@ cd /verif
 ids="$@"
 if [ -z "$ids" ]; then ids=$(ls checks.d | sed 's/.json//'); fi
 out=/verif/build/_sweep/$tier-$seed; mkdir -p $out
-run1() { id=$1; s=$(date +%s); bin/vcheck $id --tier $2 --seed $3 > $4/$id.log 2>&1; rc=$?; e=$(date +%s); echo "$id rc=$rc $((e-s))s $(grep -c '^VIOLATION' $4/$id.log) viol $(grep -c '^KNOWN-FINDING' $4/$id.log) known"; }
+run1() { id=$1; s=$(date +%s); bin/vcheck $id --tier $2 --seed $3 > $4/$id.log 2>&1; rc=$?; cp evidence/$id.json $4/$id.evidence.json 2>/dev/null; if [ $rc != 0 ]; then rm -rf $4/$id.out; cp -r build/$id/out $4/$id.out 2>/dev/null; fi; e=$(date +%s); echo "$id rc=$rc $((e-s))s $(grep -c '^VIOLATION' $4/$id.log) viol $(grep -c '^KNOWN-FINDING' $4/$id.log) known"; }
 export -f run1
 echo $ids | tr ' ' '\n' | xargs -P $par -I{} bash -c "run1 {} $tier $seed $out"
